@@ -61,6 +61,19 @@ def anchors():
     return _ANCHORS
 
 
+NOISE_ROOTS = ('log', 'txtorlog', 'logging', 'logger', 'print', 'warnings', 'warn')
+
+
+def _is_noise(st):
+    """a statement with no bearing on any rule: a bare logging / print call (dropped when a helper is written out at its call site)"""
+    if isinstance(st, ast.Expr) and isinstance(st.value, ast.Call):
+        f = st.value.func
+        while isinstance(f, ast.Attribute):
+            f = f.value
+        return isinstance(f, ast.Name) and f.id in NOISE_ROOTS
+    return isinstance(st, ast.Pass)
+
+
 def _is_ic(dec):
     d = ast.unparse(dec)
     return d.endswith('inlineCallbacks')
@@ -161,6 +174,8 @@ class _Helper(object):
         body = list(self.fn.body)
         if body and isinstance(body[0], ast.Expr) and isinstance(body[0].value, ast.Constant) and isinstance(body[0].value.value, str):
             body = body[1:]
+        if self.kind == 'EXPR':
+            body = [b for b in body if not _is_noise(b)]
         return body
 
     @property
@@ -228,7 +243,7 @@ def _classify(fn, method, nested, known=None):
     if not rets:
         return 'STMT'
     if len(rets) == 1 and rets[0] is body[-1] and rets[0].value is not None:
-        if len(body) == 1 and not gen:
+        if len([b for b in body if not _is_noise(b)]) == 1 and not gen:
             return 'EXPR'
         return 'STMT_RET'
     if len(rets) == 1 and rets[0] is body[-1] and rets[0].value is None:
@@ -285,10 +300,12 @@ def _bind(h, call):
 
 
 def _callee_key(call, in_class):
-    """('m', name) for self.name(...), ('f', name) for name(...)"""
+    """('m', name) for self.name(...), ('f', name) for name(...), ('x', name) for <simple receiver>.name(...)"""
     f = call.func
     if isinstance(f, ast.Attribute) and isinstance(f.value, ast.Name) and f.value.id == 'self':
         return ('m', f.attr)
+    if isinstance(f, ast.Attribute) and _simple(f.value):
+        return ('x', f.attr)
     if isinstance(f, ast.Name):
         return ('f', f.id)
     return None
@@ -328,6 +345,9 @@ class _Inliner(ast.NodeTransformer):
         m = _bind(h, call)
         if m is None:
             return None, None
+        if k[0] == 'x':
+            m = dict(m)
+            m['self'] = call.func.value       # the receiver stands for `self` inside the inlined body
         return h, m
 
     def _expand(self, h, m, at):
@@ -336,6 +356,9 @@ class _Inliner(ast.NodeTransformer):
         mapping = {}
         stored = set(x.id for b in h.body for x in ast.walk(b) if isinstance(x, ast.Name) and isinstance(x.ctx, ast.Store) and x.id in h.params)
         for p, a in m.items():
+            if p == 'self':
+                mapping['self'] = a
+                continue
             if p in stored:
                 # a parameter the helper re-binds is a local of its own, initialised with the argument
                 tmp = '%s__%s' % (h.name.strip('_'), p)
@@ -549,6 +572,10 @@ def normalize_package(trees, ref=None):
     for cls, bases, meths in classes:
         for m in meths:
             method_defs[(id(cls), m)] = sum(1 for c2, _, m2 in classes if m in m2 and related(cls.name, c2.name))
+    pkg_method_count = {}
+    for cls_, bases_, meths_ in classes:
+        for m_ in meths_:
+            pkg_method_count[m_] = pkg_method_count.get(m_, 0) + 1
     helpers_by_module = {}
     for mname, tree in trees.items():
         mod_scope = {}
@@ -578,8 +605,17 @@ def normalize_package(trees, ref=None):
                 for sc in class_scopes.values():
                     sc.pop(('m', n.attr), None)
             if isinstance(n, ast.Attribute) and not (isinstance(n.value, ast.Name) and n.value.id == 'self'):
+                # `other._h(...)`: fine when _h is defined by exactly one class in the whole package (then `other` is an instance
+                # of that class) and this is a direct call on a simple receiver; anything else keeps the helper as it is
+                if pkg_method_count.get(n.attr, 0) == 1 and id(n) in call_funcs and _simple(n.value):
+                    continue
                 for sc in class_scopes.values():
                     sc.pop(('m', n.attr), None)
+        # package-unique method helpers can be inlined at `<receiver>._h(...)` sites anywhere in this module
+        for sc in list(class_scopes.values()):
+            for (k0, nm), h in list(sc.items()):
+                if k0 == 'm' and pkg_method_count.get(nm, 0) == 1:
+                    mod_scope[('x', nm)] = h
     # references from other modules (imports of a module-level helper, attribute uses of a method name) keep the helper as it is
     ext = {}
     for mname, tree in trees.items():
@@ -615,6 +651,8 @@ def normalize_package(trees, ref=None):
                     _process_function(fn, sc, 0, set((rmod['nested'].get(cls.name + '.' + fn.name) or {})) if rmod else None)
         # remove helpers without remaining references
         for key, h in list(mod_scope.items()):
+            if key[0] == 'x':
+                continue
             if h.inlined and not any(isinstance(x, ast.Name) and x.id == h.name and isinstance(x.ctx, ast.Load) for x in ast.walk(tree)):
                 tree.body.remove(h.fn)
                 log.append((mname, h.name, h.inlined, True))
@@ -774,6 +812,34 @@ def _string_builders(fn):
                     and isinstance(st.value.func.value.value, str) and len(st.value.args) == 1 and isinstance(st.value.args[0], ast.Name) and st.value.args[0].id == L:
                 joins.append(st)
         loads = [u for u in uses if isinstance(u.ctx, ast.Load)]
+        if not joins and len(loads) == len(adds) + 1:
+            # joined in place, inside a larger statement at the top level of fn: f(' '.join(parts)) -> parts__joined = ' '.join(parts); f(parts__joined)
+            for i_, st in enumerate(fn.body):
+                hit = [x for x in ast.walk(st) if isinstance(x, ast.Call) and isinstance(x.func, ast.Attribute) and x.func.attr == 'join' and isinstance(x.func.value, ast.Constant)
+                       and isinstance(x.func.value.value, str) and len(x.args) == 1 and isinstance(x.args[0], ast.Name) and x.args[0].id == L]
+                if len(hit) == 1 and not isinstance(st, (ast.For, ast.While, ast.If, ast.With, ast.Try, ast.FunctionDef, ast.AsyncFunctionDef)):
+                    S_ = '%s__joined' % L
+                    jn = ast.copy_location(ast.Assign(targets=[ast.Name(id=S_, ctx=ast.Store())], value=copy.deepcopy(hit[0])), st)
+                    ast.fix_missing_locations(jn)
+
+                    class _J(ast.NodeTransformer):
+                        def visit_Call(self, node):
+                            if node is hit[0]:
+                                return ast.copy_location(ast.Name(id=S_, ctx=ast.Load()), node)
+                            self.generic_visit(node)
+                            return node
+                    _J().visit(st)
+                    fn.body.insert(i_, jn)
+                    joins = [jn]
+                    own = []
+                    stack = list(fn.body)
+                    while stack:
+                        n_ = stack.pop()
+                        own.append(n_)
+                        if isinstance(n_, (ast.FunctionDef, ast.AsyncFunctionDef, ast.Lambda, ast.ClassDef)):
+                            continue
+                        stack.extend(ast.iter_child_nodes(n_))
+                    break
         if len(joins) != 1 or len(loads) != len(adds) + 1:
             continue
         J = joins[0]
